@@ -12,9 +12,12 @@
 // See the License for the specific language governing permissions and
 // limitations under the License.
 
-use crate::term::OwnedTerm;
+use crate::term::{
+    OwnedTerm, compare_bigint, compare_bigint_float, compare_bigint_int, compare_bit_strings,
+    compare_float_bigint, compare_float_int, compare_int_bigint, compare_int_float,
+};
 use crate::types::{
-    Atom, BigInt, ExternalFun, ExternalPid, ExternalPort, ExternalReference, InternalFun, Sign,
+    Atom, BigInt, ExternalFun, ExternalPid, ExternalPort, ExternalReference, InternalFun,
 };
 use std::borrow::Cow;
 use std::cmp::Ordering;
@@ -484,74 +487,28 @@ impl<'a> Ord for BorrowedTerm<'a> {
                 }
                 (BorrowedTerm::Map(a), BorrowedTerm::Map(b)) => {
                     a.len().cmp(&b.len()).then_with(|| {
-                        for ((k1, v1), (k2, v2)) in a.iter().zip(b.iter()) {
-                            match k1.cmp(k2) {
-                                Ordering::Equal => match v1.cmp(v2) {
-                                    Ordering::Equal => continue,
-                                    other => return other,
-                                },
-                                other => return other,
-                            }
-                        }
-                        Ordering::Equal
+                        // all keys first, then the values in key order
+                        a.keys()
+                            .cmp(b.keys())
+                            .then_with(|| a.values().cmp(b.values()))
                     })
                 }
-                (BorrowedTerm::Nil, BorrowedTerm::Nil) => Ordering::Equal,
-                (BorrowedTerm::List(a), BorrowedTerm::List(b)) => {
-                    for (x, y) in a.iter().zip(b.iter()) {
-                        match x.cmp(y) {
-                            Ordering::Equal => continue,
-                            other => return other,
-                        }
-                    }
-                    a.len().cmp(&b.len())
-                }
-                (BorrowedTerm::List(a), BorrowedTerm::Nil) => {
-                    if a.is_empty() {
-                        Ordering::Equal
-                    } else {
-                        Ordering::Greater
-                    }
-                }
-                (BorrowedTerm::Nil, BorrowedTerm::List(b)) => {
-                    if b.is_empty() {
-                        Ordering::Equal
-                    } else {
-                        Ordering::Less
-                    }
-                }
                 (
-                    BorrowedTerm::ImproperList {
-                        elements: a,
-                        tail: ta,
-                    },
-                    BorrowedTerm::ImproperList {
-                        elements: b,
-                        tail: tb,
-                    },
+                    BorrowedTerm::Nil | BorrowedTerm::List(_) | BorrowedTerm::ImproperList { .. },
+                    BorrowedTerm::Nil | BorrowedTerm::List(_) | BorrowedTerm::ImproperList { .. },
+                ) => compare_list_terms(self, other),
+                (
+                    BorrowedTerm::Binary(_)
+                    | BorrowedTerm::String(_)
+                    | BorrowedTerm::BitBinary { .. },
+                    BorrowedTerm::Binary(_)
+                    | BorrowedTerm::String(_)
+                    | BorrowedTerm::BitBinary { .. },
                 ) => {
-                    for (x, y) in a.iter().zip(b.iter()) {
-                        match x.cmp(y) {
-                            Ordering::Equal => continue,
-                            other => return other,
-                        }
-                    }
-                    a.len().cmp(&b.len()).then_with(|| ta.cmp(tb))
+                    let (a, a_bits) = bit_string_view(self);
+                    let (b, b_bits) = bit_string_view(other);
+                    compare_bit_strings(a, a_bits, b, b_bits)
                 }
-                (BorrowedTerm::Binary(a), BorrowedTerm::Binary(b)) => a.cmp(b),
-                (BorrowedTerm::String(a), BorrowedTerm::String(b)) => a.cmp(b),
-                (BorrowedTerm::Binary(a), BorrowedTerm::String(b)) => a.as_ref().cmp(b.as_bytes()),
-                (BorrowedTerm::String(a), BorrowedTerm::Binary(b)) => a.as_bytes().cmp(b.as_ref()),
-                (
-                    BorrowedTerm::BitBinary {
-                        bytes: a,
-                        bits: abits,
-                    },
-                    BorrowedTerm::BitBinary {
-                        bytes: b,
-                        bits: bbits,
-                    },
-                ) => a.cmp(b).then_with(|| abits.cmp(bbits)),
                 _ => Ordering::Equal,
             },
             other => other,
@@ -591,109 +548,105 @@ impl<'a> Index<&BorrowedTerm<'a>> for BorrowedTerm<'a> {
     }
 }
 
-fn compare_int_bigint(i: i64, big: &BigInt) -> Ordering {
-    if big.digits.is_empty() {
-        return i.cmp(&0);
+fn bit_string_view<'t>(term: &'t BorrowedTerm<'_>) -> (&'t [u8], u8) {
+    match term {
+        BorrowedTerm::Binary(b) => (b.as_ref(), 8),
+        BorrowedTerm::String(s) => (s.as_bytes(), 8),
+        BorrowedTerm::BitBinary { bytes, bits } => (bytes.as_ref(), *bits),
+        _ => (&[], 8),
     }
+}
 
-    if big.sign.is_negative() {
-        if i >= 0 {
-            return Ordering::Greater;
+const LIST_TYPE_ORDER: u8 = 8;
+
+fn non_list_type_order(t: &BorrowedTerm<'_>) -> u8 {
+    match t {
+        BorrowedTerm::Integer(_) | BorrowedTerm::BigInt(_) | BorrowedTerm::Float(_) => 0,
+        BorrowedTerm::Atom(_) => 1,
+        BorrowedTerm::Reference(_) => 2,
+        BorrowedTerm::ExternalFun(_) | BorrowedTerm::InternalFun(_) => 3,
+        BorrowedTerm::Port(_) => 4,
+        BorrowedTerm::Pid(_) => 5,
+        BorrowedTerm::Tuple(_) => 6,
+        BorrowedTerm::Map(_) => 7,
+        BorrowedTerm::Nil | BorrowedTerm::List(_) | BorrowedTerm::ImproperList { .. } => {
+            LIST_TYPE_ORDER
         }
-        if big.digits.len() > 8 {
-            return Ordering::Greater;
+        BorrowedTerm::Binary(_) | BorrowedTerm::BitBinary { .. } | BorrowedTerm::String(_) => 9,
+    }
+}
+
+/// Elements and tail of a list-like term; `None` stands for the empty list.
+fn list_view<'t, 'a>(
+    term: &'t BorrowedTerm<'a>,
+) -> (&'t [BorrowedTerm<'a>], Option<&'t BorrowedTerm<'a>>) {
+    match term {
+        BorrowedTerm::List(elements) => (elements, None),
+        BorrowedTerm::ImproperList { elements, tail } => (elements, Some(tail)),
+        _ => (&[], None),
+    }
+}
+
+fn is_list_term(term: &BorrowedTerm<'_>) -> bool {
+    matches!(
+        term,
+        BorrowedTerm::Nil | BorrowedTerm::List(_) | BorrowedTerm::ImproperList { .. }
+    )
+}
+
+/// Erlang's list order; mirrors `compare_list_terms` of the owned term type.
+fn compare_list_terms<'a>(a: &BorrowedTerm<'a>, b: &BorrowedTerm<'a>) -> Ordering {
+    let (mut a_elements, mut a_tail) = list_view(a);
+    let (mut b_elements, mut b_tail) = list_view(b);
+    loop {
+        while a_elements.is_empty() {
+            match a_tail {
+                Some(tail) if is_list_term(tail) => (a_elements, a_tail) = list_view(tail),
+                _ => break,
+            }
         }
-        let abs_i = i.wrapping_neg() as u64;
-        let big_val = bigint_to_u64(big);
-        abs_i.cmp(&big_val).reverse()
-    } else {
-        if i < 0 {
-            return Ordering::Less;
+        while b_elements.is_empty() {
+            match b_tail {
+                Some(tail) if is_list_term(tail) => (b_elements, b_tail) = list_view(tail),
+                _ => break,
+            }
         }
-        if big.digits.len() > 8 {
-            return Ordering::Less;
+        match (a_elements.split_first(), b_elements.split_first()) {
+            (Some((x, a_rest)), Some((y, b_rest))) => {
+                match x.cmp(y) {
+                    Ordering::Equal => {}
+                    other => return other,
+                }
+                a_elements = a_rest;
+                b_elements = b_rest;
+            }
+            (None, Some(_)) => {
+                return match a_tail {
+                    None => Ordering::Less,
+                    Some(tail) => non_list_type_order(tail).cmp(&LIST_TYPE_ORDER),
+                }
+                .then(Ordering::Less);
+            }
+            (Some(_), None) => {
+                return match b_tail {
+                    None => Ordering::Greater,
+                    Some(tail) => LIST_TYPE_ORDER.cmp(&non_list_type_order(tail)),
+                }
+                .then(Ordering::Greater);
+            }
+            (None, None) => {
+                return match (a_tail, b_tail) {
+                    (None, None) => Ordering::Equal,
+                    (None, Some(tail)) => LIST_TYPE_ORDER
+                        .cmp(&non_list_type_order(tail))
+                        .then(Ordering::Less),
+                    (Some(tail), None) => non_list_type_order(tail)
+                        .cmp(&LIST_TYPE_ORDER)
+                        .then(Ordering::Greater),
+                    (Some(x), Some(y)) => x.cmp(y),
+                };
+            }
         }
-        let abs_i = i as u64;
-        let big_val = bigint_to_u64(big);
-        abs_i.cmp(&big_val)
-    }
-}
-
-fn compare_bigint_int(big: &BigInt, i: i64) -> Ordering {
-    compare_int_bigint(i, big).reverse()
-}
-
-fn compare_bigint(a: &BigInt, b: &BigInt) -> Ordering {
-    match (a.sign, b.sign) {
-        (Sign::Positive, Sign::Negative) => Ordering::Greater,
-        (Sign::Negative, Sign::Positive) => Ordering::Less,
-        (Sign::Positive, Sign::Positive) => a
-            .digits
-            .len()
-            .cmp(&b.digits.len())
-            .then_with(|| a.digits.cmp(&b.digits)),
-        (Sign::Negative, Sign::Negative) => a
-            .digits
-            .len()
-            .cmp(&b.digits.len())
-            .then_with(|| a.digits.cmp(&b.digits))
-            .reverse(),
-    }
-}
-
-fn bigint_to_u64(big: &BigInt) -> u64 {
-    let mut result = 0u64;
-    for (i, &byte) in big.digits.iter().enumerate().take(8) {
-        result |= (byte as u64) << (i * 8);
-    }
-    result
-}
-
-fn compare_int_float(i: i64, f: f64) -> Ordering {
-    if f.is_nan() {
-        return Ordering::Less;
-    }
-    let i_as_f = i as f64;
-    i_as_f.partial_cmp(&f).unwrap_or(Ordering::Equal)
-}
-
-fn compare_float_int(f: f64, i: i64) -> Ordering {
-    compare_int_float(i, f).reverse()
-}
-
-fn compare_bigint_float(big: &BigInt, f: f64) -> Ordering {
-    if f.is_nan() {
-        return Ordering::Less;
-    }
-    let big_as_f = bigint_to_f64(big);
-    big_as_f.partial_cmp(&f).unwrap_or(Ordering::Equal)
-}
-
-fn compare_float_bigint(f: f64, big: &BigInt) -> Ordering {
-    compare_bigint_float(big, f).reverse()
-}
-
-fn bigint_to_f64(big: &BigInt) -> f64 {
-    let mut result = 0f64;
-    let mut scale = 1.0f64;
-
-    for &byte in big.digits.iter() {
-        let contribution = (byte as f64) * scale;
-        if contribution.is_infinite() || scale.is_infinite() {
-            return if big.sign.is_negative() {
-                f64::NEG_INFINITY
-            } else {
-                f64::INFINITY
-            };
-        }
-        result += contribution;
-        scale *= 256.0;
-    }
-
-    if big.sign.is_negative() {
-        -result
-    } else {
-        result
     }
 }
 
